@@ -256,7 +256,14 @@ def describe(st):
             raise ValueError("whitespace cells are single bytes")
         if last:
             elems.append({"k": kind[c["t"]], "e": c["e"], "to": p})
-    return {"n": len(b), "elems": elems, "chars": utf8_chars(b), "sync": sync}
+    chars = utf8_chars(b)
+    bnd, held = [0] * len(b), [0] * len(b)      # indexes by position p = 1..n (see FromCells in spec/Framing.tla)
+    for j, el in enumerate(elems):
+        bnd[el["to"] - 1] = j + 1
+    for c in chars:
+        for q in range(c["from"], c["to"]):
+            held[q - 1] = q - c["from"] + 1
+    return {"n": len(b), "elems": elems, "chars": chars, "sync": sync, "bnd": bnd, "held": held}
 
 
 def shape_of(st):
